@@ -37,6 +37,14 @@ pub fn vx_aspath_next(i: &mut bgp::AsPathIter) -> (r: Option<Vec<u32>>)
 
 #[verifier::external_type_specification]
 #[verifier::external_body]
+pub struct ExFnvHasherP(fnv::FnvHasher);
+#[verifier::external_type_specification]
+#[verifier::external_body]
+#[verifier::reject_recursive_types_in_ground_variants(H)]
+pub struct ExBuildHasherDefaultP<H>(core::hash::BuildHasherDefault<H>);
+
+#[verifier::external_type_specification]
+#[verifier::external_body]
 pub struct ExRegex(regex::Regex);
 
 /// regular-expression matching is an (uninterpreted) function of pattern and text
@@ -44,5 +52,28 @@ pub uninterp spec fn re_match(r: regex::Regex, s: Seq<char>) -> bool;
 pub assume_specification[ regex::Regex::is_match ](r: &regex::Regex, haystack: &str) -> (b: bool)
     ensures b == re_match(*r, haystack@),
 ;
+
+// ---- Statement::apply: attribute constructors as uninterpreted values with their type codes (assumed) -------------
+pub broadcast axiom fn axiom_comm_attr_code(a: Seq<u32>)
+    ensures (#[trigger] sp_comm_attr(a)) is Some ==> attr_code(sp_comm_attr(a)->Some_0) == 8,
+;
+pub broadcast axiom fn axiom_ecomm_attr_code(b: Seq<[u8; 8]>)
+    ensures (#[trigger] sp_ecomm_attr(b)) is Some ==> attr_code(sp_ecomm_attr(b)->Some_0) == 16,
+;
+pub broadcast axiom fn axiom_lcomm_attr_code(c: Seq<(u32, u32, u32)>)
+    ensures (#[trigger] sp_lcomm_attr(c)) is Some ==> attr_code(sp_lcomm_attr(c)->Some_0) == 32,
+;
+pub uninterp spec fn sp_empty_as_path() -> packet::Attribute;
+pub broadcast axiom fn axiom_empty_as_path()
+    ensures attr_code(#[trigger] sp_empty_as_path()) == 2, attr_binary(sp_empty_as_path()) is Some, aspath_segments(sp_empty_as_path()).len() == 0,
+;
+/// Attribute::new_with_value: Some for the codes with canonical flags (Kani harness c05_canonical_flags_table), a value attribute
+pub uninterp spec fn sp_value_attr(code: u8, v: u32) -> packet::Attribute;
+pub broadcast axiom fn axiom_value_attr(code: u8, v: u32)
+    ensures attr_code(#[trigger] sp_value_attr(code, v)) == code, attr_value(sp_value_attr(code, v)) == Some(v),
+;
+pub uninterp spec fn sp_comm_attr(c: Seq<u32>) -> Option<packet::Attribute>;
+pub uninterp spec fn sp_ecomm_attr(c: Seq<[u8; 8]>) -> Option<packet::Attribute>;
+pub uninterp spec fn sp_lcomm_attr(c: Seq<(u32, u32, u32)>) -> Option<packet::Attribute>;
 
 } // verus!
